@@ -250,7 +250,7 @@ class Walker:
                             x = (self.chain_loss(next_node)[0] - self.span.get('span_loss_ref', 20.0)) * \
                                 self.span.get('power_slope', 0.3)
                             v = min(max(round(round(x / st) * st, 1), lo), hi) + base_voa
-                            if abs(dp - min(v, limit + (v - dp0))) < 1e-9 or abs(dp - v) < 1e-9:
+                            if abs(dp - min(v, limit)) < 1e-9:      # the p_max / extended-gain limit does not depend on the offset
                                 mech = 'offset-step-coarsened-to-one-decimal'
                         ctx.violation('I2-power-rule', f'{node.uid}: offset {dp:.6f} dB; {kind} value {dp0:.6f} '
                                       f'(next span loss {self.chain_loss(next_node)[0]:.4f} dB, range {[lo, hi, step]}), '
